@@ -388,4 +388,30 @@ theorem absOrigin_new (win : Win) (c r W H : Int) :
     absOrigin (win.new c r W H) = ((absOrigin win).1 + c, (absOrigin win).2 + r) := by
   simp [Win.new, absOrigin]
 
+/-! ### continuation columns of a wide cluster -/
+
+/-- In a right-nested chain, a point of the clip region can be moved right as far as the window's
+own right edge without leaving the clip region. -/
+theorem covers_extend (win : Win) (hn : rightNested win) (x x' y : Int) (h : covers win x y)
+    (h1 : x ≤ x') (h2 : x' < (absOrigin win).1 + win.width) : covers win x' y := by
+  induction win generalizing x x' with
+  | root c r w h' =>
+    simp only [covers, inOwnRect, absOrigin, width_root] at h h2 ⊢
+    omega
+  | child c r w h' p ih =>
+    simp only [covers, inOwnRect, absOrigin, width_child, height_child] at h h2 ⊢
+    simp only [rightNested] at hn
+    refine ⟨by omega, ih hn.2 x x' h.2 h1 (by omega)⟩
+
+/-- `New` makes a right-nested child of a right-nested window, whatever its arguments. -/
+theorem rightNested_new (win : Win) (hn : rightNested win) (c r W H : Int) :
+    rightNested (win.new c r W H) := by
+  simp only [Win.new, rightNested]
+  refine ⟨?_, hn⟩
+  split
+  · omega
+  · split <;> omega
+
+theorem rightNested_ofScreen (s : Screen) : rightNested (Win.ofScreen s) := trivial
+
 end VaxisModel.Lemmas.Window
